@@ -242,6 +242,13 @@ func c18Server(r *vf.Run, t *testing.T, id string, rng *rand.Rand) {
 				pendingLower = ps.frame // binds when the ACK is read
 			}
 			_ = old
+			// the values of one frame are processed in the order they appear (RFC 7540 6.5.3): a table size that is lowered and
+			// raised again inside one frame has still been lowered
+			for _, st := range ss {
+				if st.ID == 1 {
+					bc.dec.SetAllowed(st.Val)
+				}
+			}
 			bc.dec.SetAllowed(uint32(ps.table))
 			e.P.Write(rt.SettingsFrame(ss...))
 			sent++
@@ -534,6 +541,13 @@ func c18Client(r *vf.Run, t *testing.T, id string, rng *rand.Rand) {
 				pendingLower = ps.frame
 			}
 			_ = old
+			// the values of one frame are processed in the order they appear (RFC 7540 6.5.3): a table size that is lowered and
+			// raised again inside one frame has still been lowered
+			for _, st := range ss {
+				if st.ID == 1 {
+					bc.dec.SetAllowed(st.Val)
+				}
+			}
 			bc.dec.SetAllowed(uint32(ps.table))
 			e.P.Write(rt.SettingsFrame(ss...))
 			sent++
